@@ -30,7 +30,7 @@ import (
 //	                                        Draw into Window().New(col,row,ww,wh) of a cleared 16x8 screen
 //	                                        => "cw ch;x,y:glyph:fg:bg;..." (cells differing from the cleared cell)
 //	knew W H XPIX YPIX                      new Vaxis on a fake console reporting that size (in-band resize)
-//	kimg N wPix hPix                        vx.NewKittyGraphic of an NRGBA image         => image id
+//	kimg N wPix hPix                        vx.NewKittyGraphic of an NRGBA image         => image id   (kimgs: of a crop of a larger image)
 //	kresize N w h                           Resize + wait for the encoder               => "cw ch" | "cw ch noencode" | panic
 //	simg N wPix hPix / sresize N w h        the same for vx.NewSixel (ids are shared with kitty images)
 //	sdraw N col row ww wh                   sixel.Draw(Window().New(col,row,ww,wh)): not drawn if larger than the window
@@ -429,14 +429,23 @@ func (s *session) execOp(f []string) (string, bool) {
 		return "", false
 	}
 	switch f[0] {
-	case "kimg":
+	case "kimg", "kimgs":
 		a, ok := ints(f[1:])
 		if !ok || len(a) != 3 || a[1] < 1 || a[2] < 1 {
 			return "", false
 		}
-		img := image.NewNRGBA(image.Rect(0, 0, a[1], a[2]))
-		for i := range img.Pix {
-			img.Pix[i] = uint8(37*i + 11*a[0] + 200)
+		// kimgs (round 4, F420): the image is a crop (SubImage) of a larger one, its bounds do not start at the origin
+		mx, my := 0, 0
+		if f[0] == "kimgs" {
+			mx, my = 5+a[1]%7, 3+a[2]%5
+		}
+		big := image.NewNRGBA(image.Rect(0, 0, a[1]+mx, a[2]+my))
+		for i := range big.Pix {
+			big.Pix[i] = uint8(37*i + 11*a[0] + 200)
+		}
+		var img image.Image = big
+		if f[0] == "kimgs" {
+			img = big.SubImage(image.Rect(mx, my, mx+a[1], my+a[2]))
 		}
 		s.imgs[a[0]] = s.kvx.NewKittyGraphic(img)
 		s.imgDims[a[0]] = [2]int{a[1], a[2]}
@@ -1150,7 +1159,12 @@ func genPlacements(r *hx.Run, rng *gen.Rng, do func(string) string) {
 		do(fmt.Sprintf("#case kitty:inplace:%d", c))
 		g := gen.Pick(rng, [][2]int{{8, 16}, {10, 20}, {4, 8}})
 		do(fmt.Sprintf("knew 40 20 %d %d", 40*g[0], 20*g[1]))
-		do(fmt.Sprintf("kimg 1 %d %d", rng.Range(30, 64), rng.Range(30, 64)))
+		if rng.Chance(1, 3) {
+			do(fmt.Sprintf("kimgs 1 %d %d", rng.Range(30, 64), rng.Range(30, 64)))
+			r.Count("kitty-image-is-a-crop")
+		} else {
+			do(fmt.Sprintf("kimg 1 %d %d", rng.Range(30, 64), rng.Range(30, 64)))
+		}
 		do(fmt.Sprintf("kimg 2 %d %d", rng.Range(4, 20), rng.Range(4, 20)))
 		do(fmt.Sprintf("kresize 1 %d %d", rng.Range(2, 6), rng.Range(1, 3)))
 		do(fmt.Sprintf("kresize 2 %d %d", rng.Range(1, 3), rng.Range(1, 2)))
